@@ -18,6 +18,7 @@ from decimal import Decimal
 from enum import Enum
 from fractions import Fraction
 from functools import cached_property
+from types import MemberDescriptorType
 from typing import Any, ForwardRef, Optional, Tuple, Type, Union
 from uuid import UUID
 from zoneinfo import ZoneInfo
@@ -201,6 +202,9 @@ class Instance:
             f_default = f.default
             if f_default is MISSING:
                 f_default = self._self_builder.namespace.get(f_name, MISSING)
+                if isinstance(f_default, MemberDescriptorType):
+                    # dataclass(slots=True): the class attribute is the slot
+                    f_default = MISSING
             if f_default is not MISSING:
                 f_default = _default(f_type, f_default, self.get_self_config())
 
